@@ -1,5 +1,6 @@
 import Mathlib.Analysis.SpecialFunctions.Complex.Circle
 import PbProofs.DayFrac
+import PbProofs.DayFracMul
 import PbModel.Pol
 
 /-! # C07 — Phase arithmetic keeps two-double precision for every operand kind
@@ -56,6 +57,36 @@ theorem C07_exact_refines (v1 v2 : ℚ) :
     rw [hex]
     simp only [add_zero]
     refine ⟨by ring, by linarith, by linarith⟩
+
+/-- **multiplication by a number** (the `day_frac(v1, v2, factor=f)` path behind `Phase * x`): for
+representable operands with `|(v1+v2)·f| ≤ 2^52 − 2`, under the standard model and the error-free
+contracts of `two_sum` and `two_product`, the count is an integer, `count + frac` is within `2^-51`
+of the exact product, and the fraction is normalised. -/
+theorem C07_dayfrac_mul (M : FPModel) (hE : M.TwoSumExact) (hP : M.TwoProductExact) (v1 v2 f : ℚ)
+    (h1 : M.F v1) (h2 : M.F v2) (hf : M.F f) (hV : |(v1 + v2) * f| ≤ 2^52 - 2) :
+    (∃ n : ℤ, (Pb.DayFrac.dayFrac (ratOps M.rn) v1 v2 (some f) none).1 = n) ∧
+    |(Pb.DayFrac.dayFrac (ratOps M.rn) v1 v2 (some f) none).1 + (Pb.DayFrac.dayFrac (ratOps M.rn) v1 v2 (some f) none).2
+      - (v1 + v2) * f| ≤ 1 / 2^51 ∧
+    |(Pb.DayFrac.dayFrac (ratOps M.rn) v1 v2 (some f) none).2| ≤ 1/2 + 1 / 2^49 :=
+  M.dayFrac_mul_spec hE hP v1 v2 f h1 h2 hf hV
+
+/-- **division by a number** (the `day_frac(v1, v2, divisor=d)` path behind `Phase / x`): for
+representable operands, `d ≠ 0` and `|(v1+v2)/d| ≤ 2^52 − 2`, the count is an integer,
+`count + frac` is within `2^-50` of the exact quotient, and the fraction is normalised.
+(The harness validates the property's tighter `2^-52` on every case; the proved constant is the
+worst case of a term-by-term rounding analysis.) -/
+theorem C07_dayfrac_div (M : FPModel) (hE : M.TwoSumExact) (hP : M.TwoProductExact) (v1 v2 d : ℚ)
+    (h1 : M.F v1) (h2 : M.F v2) (hdF : M.F d) (hd : d ≠ 0) (hV : |(v1 + v2) / d| ≤ 2^52 - 2) :
+    (∃ n : ℤ, (Pb.DayFrac.dayFrac (ratOps M.rn) v1 v2 none (some d)).1 = n) ∧
+    |(Pb.DayFrac.dayFrac (ratOps M.rn) v1 v2 none (some d)).1 + (Pb.DayFrac.dayFrac (ratOps M.rn) v1 v2 none (some d)).2
+      - (v1 + v2) / d| ≤ 1 / 2^50 ∧
+    |(Pb.DayFrac.dayFrac (ratOps M.rn) v1 v2 none (some d)).2| ≤ 1/2 + 1 / 2^49 :=
+  M.dayFrac_div_spec hE hP v1 v2 d h1 h2 hdF hd hV
+
+/-- the product contract is satisfiable too: exact arithmetic has an exact `two_product` -/
+theorem C07_exact_two_product : exactModel.TwoProductExact := by
+  intro a b _ _
+  simp [FPModel.twoProduct, FPModel.ops, Pb.DayFrac.twoProduct, Pb.DayFrac.split, Pb.DayFrac.ratOps, exactModel]
 
 /-! ### real / imaginary axes -/
 
